@@ -333,6 +333,22 @@ func exprPath(e ast.Expr) string {
 	return ""
 }
 
+// skeletonGuards: also emit "if <condition>" (receiver stripped) / "else" / "fi" for if statements whose
+// condition mentions the receiver, "switch" heads likewise, and "return" - used for the methods the
+// per-RPC model (Rpc.v) transcribes, where which test precedes which emission is what matters.
+var skeletonGuards = false
+
+func guardText(fn *ast.FuncDecl, e ast.Expr) string {
+	var sb strings.Builder
+	_ = printer.Fprint(&sb, token.NewFileSet(), e)
+	recv := fn.Recv.List[0].Names[0].Name + "."
+	t := strings.Join(strings.Fields(sb.String()), " ")
+	if !strings.Contains(t, recv) {
+		return ""
+	}
+	return strings.ReplaceAll(t, recv, "")
+}
+
 func skeleton(fn *ast.FuncDecl) []string {
 	if fn == nil || fn.Body == nil || fn.Recv == nil || len(fn.Recv.List) == 0 || len(fn.Recv.List[0].Names) == 0 {
 		return nil
@@ -378,6 +394,31 @@ func skeleton(fn *ast.FuncDecl) []string {
 			return
 		case *ast.FuncLit:
 			return
+		case *ast.IfStmt:
+			if skeletonGuards {
+				if t := guardText(fn, x.Cond); t != "" {
+					if x.Init != nil {
+						walk(x.Init, false)
+					}
+					walk(x.Cond, false)
+					out = append(out, "if "+t)
+					walk(x.Body, false)
+					if x.Else != nil {
+						out = append(out, "else")
+						walk(x.Else, false)
+					}
+					out = append(out, "fi")
+					return
+				}
+			}
+		case *ast.ReturnStmt:
+			if skeletonGuards {
+				for _, r := range x.Results {
+					walk(r, false)
+				}
+				out = append(out, "return")
+				return
+			}
 		case *ast.SelectStmt:
 			hasDefault := false
 			for _, c := range x.Body.List {
@@ -445,6 +486,11 @@ func skeleton(fn *ast.FuncDecl) []string {
 			case *ast.DeferStmt, *ast.GoStmt, *ast.FuncLit, *ast.SelectStmt, *ast.SendStmt, *ast.UnaryExpr, *ast.CallExpr, *ast.AssignStmt, *ast.IncDecStmt:
 				walk(m, false)
 				return false
+			case *ast.IfStmt, *ast.ReturnStmt:
+				if skeletonGuards {
+					walk(m, false)
+					return false
+				}
 			}
 			return true
 		})
@@ -581,6 +627,13 @@ var skeletonFuncs = []string{
 	"reverseChannels.add", "reverseChannels.remove",
 }
 
+// methods transcribed by the per-RPC model (coq/theories/Rpc.v), with their guards
+var guardedFuncs = []string{
+	"tunnelClientStream.SendMsg", "tunnelClientStream.CloseSend", "tunnelServerStream.SendMsg",
+	"tunnelServerStream.setHeader", "tunnelServerStream.sendHeadersLocked", "tunnelServerStream.setTrailer",
+	"tunnelServer.getStream", "tunnelChannel.getStream",
+}
+
 // stripRecv removes "<receiver>." from a rendered expression of method fnName, so that the
 // regenerated text does not depend on how the receiver is called
 func stripRecv(p *pkgInfo, fnName, text string) string {
@@ -675,6 +728,16 @@ func main() {
 	}
 	b.WriteString("\n(* the reverse-tunnel server's shutdown state machine *)\n")
 	fmt.Fprintf(&b, "Definition rs_states : list string := %s.\n", coqStrList(iotaBlock(p, "stateActive")))
+	b.WriteString("\n(* the same with guards (if / else / fi / return), for the methods Rpc.v transcribes *)\n")
+	skeletonGuards = true
+	for _, fn := range guardedFuncs {
+		if p.funcs[fn] == nil {
+			missing = append(missing, fn)
+		}
+		name := "gskel_" + strings.ReplaceAll(fn, ".", "_")
+		fmt.Fprintf(&b, "Definition %s : list string := %s.\n", name, coqStrList(skeleton(p.funcs[fn])))
+	}
+	skeletonGuards = false
 	fmt.Fprintf(&b, "Definition rs_guards : list (string * string) := [(\"isClosing\", \"%s\"); (\"isClosed\", \"%s\"); (\"addInstance\", \"%s\"); (\"Stop\", \"%s\"); (\"GracefulStop\", \"%s\")].\n",
 		stripRecv(p, "ReverseTunnelServer.isClosing", condText(p, "ReverseTunnelServer.isClosing", -1)), stripRecv(p, "ReverseTunnelServer.isClosed", condText(p, "ReverseTunnelServer.isClosed", -1)),
 		stripRecv(p, "ReverseTunnelServer.addInstance", condText(p, "ReverseTunnelServer.addInstance", 0)), stripRecv(p, "ReverseTunnelServer.Stop", condText(p, "ReverseTunnelServer.Stop", 0)),
